@@ -7,5 +7,5 @@ CONSTANTS
   RequireAligned = TRUE
 INIT Init
 NEXT Next
-INVARIANTS ResolutionAdmissible FoundWhenPresent
+INVARIANTS ResolutionAdmissible PinnedAdmissible FoundWhenPresent
 CHECK_DEADLOCK FALSE
